@@ -350,6 +350,12 @@ func GenerateRef(r *hx.Rng) *RefProg {
 	if r.Chance(6) {
 		return g.structRefProg()
 	}
+	if r.Chance(16) {
+		return attachRefProg(r)
+	}
+	if r.Chance(20) {
+		return derivedRefProg(r)
+	}
 	t, n := g.build(r.Intn(2) + 1)
 	g.tree = n
 	g.root = g.tmp("x")
